@@ -1,5 +1,10 @@
 use std::cell::UnsafeCell;
 use std::ptr;
+#[cfg(may_verif)]
+use crate::atomic::AtomicPtr;
+#[cfg(may_verif)]
+use std::sync::atomic::Ordering;
+#[cfg(not(may_verif))]
 use std::sync::atomic::{AtomicPtr, Ordering};
 
 use crossbeam_utils::{Backoff, CachePadded};
@@ -9,8 +14,21 @@ struct Node<T> {
     value: Option<T>,
 }
 
+#[cfg(may_verif)]
+impl<T> Drop for Node<T> {
+    fn drop(&mut self) {
+        crate::verif::free("ListNode", self as *const Self);
+    }
+}
+
 impl<T> Node<T> {
     unsafe fn new(v: Option<T>) -> *mut Node<T> {
+        #[cfg(may_verif)]
+        return crate::verif::alloc("ListNode", Box::into_raw(Box::new(Node {
+            next: AtomicPtr::new(ptr::null_mut()),
+            value: v,
+        })), 0, 0, 0);
+        #[cfg(not(may_verif))]
         Box::into_raw(Box::new(Node {
             next: AtomicPtr::new(ptr::null_mut()),
             value: v,
